@@ -1,4 +1,6 @@
 #include "world.hh"
+#include <cstring>
+#include <cstdio>
 #include <stdexcept>
 #include <unordered_map>
 
@@ -87,6 +89,20 @@ void execute_plan(const Plan& plan) {
 			size_t n = nm.size() < 63 ? nm.size() : 63; memcpy(g_shm->cur_op, nm.data(), n); g_shm->cur_op[n] = 0; g_shm->budget_policy = BUDGET_INCONCLUSIVE;
 		}
 		simheap::step_begin();
+		uint64_t before[5] = {0, 0, 0, 0, 0};
+		static const Counter SC[5] = {c_api_calls, c_oracle_evals, c_verdict_true, c_verdict_false, c_exceptions_expected};
+		if (g_shm) for (int k = 0; k < 5; ++k) before[k] = g_shm->counters[SC[k]];
+		struct Outcome {   // one line per step in the run's sample (written without touching the simulated heap)
+			size_t i; const Plan& plan; uint64_t* before; bool skipped = false;
+			~Outcome() {
+				if (!g_shm || i >= plan.steps.size()) return;
+				size_t used = strlen(g_shm->sample); if (used + 200 > sizeof g_shm->sample) return;
+				uint64_t d[5]; for (int k = 0; k < 5; ++k) d[k] = g_shm->counters[SC[k]] - before[k];
+				snprintf(g_shm->sample + used, sizeof g_shm->sample - used, "step %zu client %d %s%s: api calls %llu, oracle evaluations %llu, verdicts true/false %llu/%llu, expected exceptions %llu; last call site %.60s\n",
+					i, plan.steps[i].client, plan.steps[i].op.c_str(), skipped ? " (not applicable here, skipped)" : "",
+					(unsigned long long)d[0], (unsigned long long)d[1], (unsigned long long)d[2], (unsigned long long)d[3], (unsigned long long)d[4], g_shm->cur_op);
+			}
+		} outcome{i, plan, before};
 		try {
 			if (fin) { for (auto h : final_hooks()) h(); break; }
 			const Step& s = plan.steps[i];
@@ -96,7 +112,7 @@ void execute_plan(const Plan& plan) {
 			if (s.client != last_client) { if (last_client >= 0) count(c_client_switches); last_client = s.client; }
 			it->second(s);
 		}
-		catch (const Skip&) { count(c_steps_noop); }
+		catch (const Skip&) { count(c_steps_noop); outcome.skipped = true; }
 		catch (const std::exception& e) {
 			violation(g_profile + ".unexpected-exception", fin ? "<final>" : plan.steps[i].op, std::string("std::exception escaped the step: ") + e.what());
 		}
